@@ -751,6 +751,15 @@ def value_attr(interp, base, attr):
     """Attribute of a non-package value."""
     tag = base.tag
     if tag in ('datetime', 'date') and attr in ('year', 'month', 'day', 'hour', 'minute', 'second', 'microsecond'):
+        if isinstance(base, Aff) and base.kind == 'dt' and not base.coeffs:
+            # a constant date-time (seconds since 1970-01-01): its fields are constants
+            import datetime as _dtm
+            try:
+                whole = base.const.numerator // base.const.denominator
+                micro = int((base.const - whole) * 10 ** 6)
+                return Const(getattr(_dtm.datetime(1970, 1, 1) + _dtm.timedelta(seconds=whole, microseconds=micro), attr))
+            except (OverflowError, ValueError):
+                pass
         return Atom(attr, [base], 'int')
     if tag == 'complex' and attr in ('real', 'imag'):
         return Atom(attr, [base], 'float')
@@ -940,6 +949,30 @@ def _fields_of_one_datetime(v, n):
     return x
 
 
+def small_sort(interp, items, kwargs):
+    """Stable sort of at most three items whose order is decided by comparisons of their (key) values - each comparison a decision of
+    the trace; None when the list is longer or of unknown shape."""
+    if len(items) > 3 or any(isinstance(i, Splice) for i in items):
+        return None
+    if set(kwargs) - set(['key', 'reverse']):
+        return None
+    keyf = kwargs.get('key')
+    rev = kwargs.get('reverse', Const(False))
+    if not isinstance(rev, Const):
+        return None
+    keys = [interp.call(keyf, [i]) if keyf is not None and not (isinstance(keyf, Const) and keyf.value is None) else i for i in items]
+    out = []        # insertion sort: stable
+    for it_, k_ in zip(items, keys):
+        pos = len(out)
+        for j, (o_, ok_) in enumerate(out):
+            before = interp.truth(rich_compare(interp, 'lt' if not rev.value else 'gt', k_, ok_, 'sort'), 'sort: %r before %r' % (k_, ok_))
+            if before:
+                pos = j
+                break
+        out.insert(pos, (it_, k_))
+    return [o_ for o_, _ in out]
+
+
 def _drain(interp, v):
     """Consume an iterable completely (raising its tail)."""
     return iter_items(interp, v)
@@ -1021,6 +1054,9 @@ def call_builtin(interp, name, args, kwargs):
         items = _drain(interp, args[0])
         if len(items) <= 1 and not any(isinstance(i, Splice) for i in items):
             return ListV(items)
+        small = small_sort(interp, items, kwargs)
+        if small is not None:
+            return ListV(small)
         return Sym('list', 'sorted(%s)' % ', '.join(repr(i) for i in items))
     if name == 'reversed':
         items = _drain(interp, args[0])
@@ -1194,6 +1230,10 @@ def call_builtin(interp, name, args, kwargs):
             return Atom('chr', args, 'str')
         raise Raised(Exc('TypeError'))
     if name in ('hex', 'bin', 'oct'):
+        if len(args) == 1 and isinstance(args[0], Const):
+            if isinstance(args[0].value, int):
+                return Const({'hex': hex, 'bin': bin, 'oct': oct}[name](args[0].value))
+            raise Raised(Exc('TypeError', '%s object cannot be interpreted as an integer' % type(args[0].value).__name__))
         return Atom(name, args, 'str')
     if name in ('divmod',):
         return ListV([binop(interp, ast.FloorDiv(), args[0], args[1]), binop(interp, ast.Mod(), args[0], args[1])], 'tuple')
@@ -1345,6 +1385,9 @@ def call_builtin(interp, name, args, kwargs):
         for a in args[:2]:
             if a.tag is not None and a.tag != 'str':
                 raise Raised(Exc('TypeError', 'expected str'))
+        if len(args) == 2 and all(isinstance(a, Const) and isinstance(a.value, str) for a in args):
+            import fnmatch as _fn           # constant folding of a pure stdlib function (posix: fnmatch == fnmatchcase)
+            return Const(_fn.fnmatchcase(args[0].value, args[1].value))
         return Atom('fnmatch', args, 'bool')
     if name == 're.compile':
         if isinstance(args[0], Const) and isinstance(args[0].value, str):
@@ -1731,7 +1774,8 @@ def list_method(interp, base, attr, args, kwargs):
         return Const(None)
     if attr == 'sort':
         if len(base.items) > 1:
-            base.items[:] = [Splice('sorted')]
+            small = small_sort(interp, list(base.items), kwargs) if not args else None
+            base.items[:] = small if small is not None else [Splice('sorted')]
         return Const(None)
     if attr in ('index', 'count'):
         return Atom(attr, [base] + list(args), 'int')
